@@ -51,6 +51,7 @@ var script func(c *router.Context)
 func init() {
 	log.SetOutput(io.Discard) // net/http reports every cookie byte it drops
 	rt.GET("/c19", func(c *router.Context) { script(c) })
+	rt.HEAD("/c19", func(c *router.Context) { script(c) })
 	rt.GET("/c19p/:seg/end", func(c *router.Context) { script(c) })
 	rt.Warmup()
 }
